@@ -145,7 +145,7 @@ func genParam(r *rng, maxSkew int) *otp.Param {
 	if r.chance(1, 15) {
 		p.Skew = uint(pick(r, []uint64{11, 12, 1 << 32, 1<<64 - 1}))
 	}
-	p.Period = uint(pick(r, []uint64{0, 1, 2, 29, 30, 31, 60, 3600, 1 << 31, 1 << 32}))
+	p.Period = uint(pick(r, periodChoices))
 	return p
 }
 
